@@ -471,6 +471,15 @@ func simplifyField(x *Term, name string) *Term {
 			}
 		}
 	}
+	// a copy with some fields assigned afterwards: the assigned value, else the original's field
+	if x.Op == "upd" && len(x.Args) >= 1 {
+		for i := 1; i+1 < len(x.Args); i += 2 {
+			if x.Args[i].Name == name {
+				return x.Args[i+1]
+			}
+		}
+		return simplifyField(x.Args[0], name)
+	}
 	return mk("field", name, x)
 }
 
@@ -766,7 +775,69 @@ func (ts *Terms) loadAlloc(a *ssa.Alloc, fld *ssa.FieldAddr, fr *Frame, depth in
 		wm[w.String()] = w
 	}
 	base := phiOf(wm)
-	// later field stores refine a whole-value store (x := load(); x.F = v)
+	// later field stores refine a whole-value store (x := load(); x.F = v): the fields
+	// assigned after the copy hold the assigned values
+	if len(wholeSt) == 1 {
+		type fst struct {
+			name string
+			st   *ssa.Store
+		}
+		var later []fst
+		for _, r := range *a.Referrers() {
+			fa, ok := r.(*ssa.FieldAddr)
+			if !ok || fa.Referrers() == nil {
+				continue
+			}
+			for _, r2 := range *fa.Referrers() {
+				st, ok := r2.(*ssa.Store)
+				if !ok || st.Addr != ssa.Value(fa) {
+					continue
+				}
+				if !instrDominates(wholeSt[0], st) {
+					continue
+				}
+				if at != nil && at.Parent() == a.Parent() && !instrDominates(st, at) {
+					continue
+				}
+				later = append(later, fst{fieldNameShort(fa.X.Type(), fa.Field), st})
+			}
+		}
+		if len(later) > 0 {
+			over := map[string]map[string]*Term{}
+			var names []string
+			for _, l := range later {
+				if over[l.name] == nil {
+					over[l.name] = map[string]*Term{}
+					names = append(names, l.name)
+				}
+				t := ts.of(l.st.Val, fr, depth+1)
+				over[l.name][t.String()] = t
+			}
+			sort.Strings(names)
+			if base.Op == "struct" {
+				n := *base
+				n.Args = append([]*Term{}, base.Args...)
+				for _, nm := range names {
+					done := false
+					for i := 0; i+1 < len(n.Args); i += 2 {
+						if n.Args[i].Name == nm {
+							n.Args[i+1] = phiOf(over[nm])
+							done = true
+						}
+					}
+					if !done {
+						n.Args = append(n.Args, mk("const", nm), phiOf(over[nm]))
+					}
+				}
+				return &n
+			}
+			u := &Term{Op: "upd", Name: typeShort(a.Type()), Args: []*Term{base}, Site: a.Pos()}
+			for _, nm := range names {
+				u.Args = append(u.Args, mk("const", nm), phiOf(over[nm]))
+			}
+			return u
+		}
+	}
 	return base
 }
 
